@@ -2,6 +2,7 @@
 # regenerate lean/AQ/Gen/* from the sources (written only when the content changes)
 set -e
 cd "$(dirname "$0")/.."
+/venv/bin/python tools/extract_c.py >/dev/null
 /venv/bin/python tools/extract_log.py
 /venv/bin/python tools/extract_recv.py
 /venv/bin/python tools/extract_crypto.py --repo "${VERIF_REPO:-/repo}" --out lean/AQ/Gen/CryptoTables.lean
